@@ -10,8 +10,8 @@ Local Open Scope res_scope.
 Class NumRing (T : Type) {NT : Num T} : Prop :=
   { nr_ring : ring_theory (@n0 T NT) n1 nadd nmul nsub nneg (@eq T) }.
 
-#[export] Instance ZRing : NumRing Z := {| nr_ring := Zth |}.
-#[export] Instance RRing : NumRing R := {| nr_ring := RTheory |}.
+#[export] Instance ZRing : @NumRing Z ZNum := @Build_NumRing Z ZNum Zth.
+#[export] Instance RRing : @NumRing R RNum := @Build_NumRing R RNum RTheory.
 
 (* the specification sums, independent of the loops of the model *)
 Definition lsum {T : Type} {NT : Num T} (f : nat -> T) (l : list nat) : T :=
@@ -30,15 +30,18 @@ Section Ring.
   Notation g := (get (@n0 T NT)).
 
   (* ---- finite sums ------------------------------------------------------------- *)
-  Lemma lsum_app f l1 l2 : lsum f (l1 ++ l2) = lsum f l1 + lsum f l2.
-  Proof.
-    induction l1 as [|x l1 IH]; cbn [app lsum fold_right].
-    - ring.
-    - fold (lsum f (l1 ++ l2)). fold (lsum f l1). rewrite IH. ring.
-  Qed.
-
   Lemma lsum_cons f x l : lsum f (x :: l) = f x + lsum f l.
   Proof. reflexivity. Qed.
+
+  Lemma lsum_nil f : lsum f [] = n0.
+  Proof. reflexivity. Qed.
+
+  Lemma lsum_app f l1 l2 : lsum f (l1 ++ l2) = lsum f l1 + lsum f l2.
+  Proof.
+    induction l1 as [|x l1 IH].
+    - cbn [app]. rewrite lsum_nil. ring.
+    - rewrite <- app_comm_cons, !lsum_cons, IH. ring.
+  Qed.
 
   Lemma lsum_ext f f' l : (forall k, In k l -> f k = f' k) -> lsum f l = lsum f' l.
   Proof.
@@ -51,25 +54,25 @@ Section Ring.
   Proof. induction l as [|x l IH]; [reflexivity|]. rewrite lsum_cons, IH. ring. Qed.
 
   Lemma lsum_add f f' l : lsum (fun k => f k + f' k) l = lsum f l + lsum f' l.
-  Proof. induction l as [|x l IH]; [cbn; ring|]. rewrite !lsum_cons, IH. ring. Qed.
+  Proof. induction l as [|x l IH]; [rewrite !lsum_nil; ring|]. rewrite !lsum_cons, IH. ring. Qed.
 
   Lemma lsum_mul_l x f l : lsum (fun k => x * f k) l = x * lsum f l.
-  Proof. induction l as [|y l IH]; [cbn; ring|]. rewrite !lsum_cons, IH. ring. Qed.
+  Proof. induction l as [|y l IH]; [rewrite !lsum_nil; ring|]. rewrite !lsum_cons, IH. ring. Qed.
 
   Lemma lsum_mul_r x f l : lsum (fun k => f k * x) l = lsum f l * x.
-  Proof. induction l as [|y l IH]; [cbn; ring|]. rewrite !lsum_cons, IH. ring. Qed.
+  Proof. induction l as [|y l IH]; [rewrite !lsum_nil; ring|]. rewrite !lsum_cons, IH. ring. Qed.
 
   Lemma lsum_swap (f : nat -> nat -> T) l1 l2 :
     lsum (fun k => lsum (fun m => f k m) l2) l1 = lsum (fun m => lsum (fun k => f k m) l1) l2.
   Proof.
     induction l1 as [|x l1 IH].
-    - cbn [lsum fold_right]. symmetry. apply lsum_zero.
+    - rewrite lsum_nil. symmetry. apply lsum_zero.
     - rewrite lsum_cons, IH, <- lsum_add. apply lsum_ext. intros m _. reflexivity.
   Qed.
 
   Lemma rsum_S n f : rsum (S n) f = rsum n f + f n.
   Proof.
-    unfold rsum. rewrite seq_S, lsum_app. cbn [plus lsum fold_right]. ring.
+    unfold rsum. rewrite seq_S, lsum_app. cbn [plus]. rewrite lsum_cons, lsum_nil. ring.
   Qed.
 
   Lemma rsum_ext n f f' : (forall k, k < n -> f k = f' k) -> rsum n f = rsum n f'.
@@ -159,7 +162,7 @@ Section Ring.
   Qed.
 
   Lemma rsum_1 f : rsum 1 f = f 0.
-  Proof. unfold rsum. cbn [seq lsum fold_right]. ring. Qed.
+  Proof. unfold rsum. cbn [seq]. rewrite lsum_cons, lsum_nil. ring. Qed.
 
   (* C11: conforming shapes, every shape *)
   Lemma c11_conforming a b :
@@ -273,6 +276,9 @@ Section Ring.
     - intros i j Hi Hj. rewrite (get_rc_ok n0 a i j Ia Hi Hj). reflexivity.
   Qed.
 
+  Lemma foldM_id {A S : Type} (l : list A) (s : S) : foldM l (fun _ r => Ok r) s = Ok s.
+  Proof. induction l as [|x l IH]; [reflexivity|]. cbn [foldM bind]. exact IH. Qed.
+
   Lemma sdiv_zero a k : Inv a -> neqb k n0 = true ->
     sdiv true a k = if is_empty a then Ok (full n0 (height a) (width a)) else Panic WDivZero.
   Proof.
@@ -280,9 +286,7 @@ Section Ring.
     destruct (height a =? 0) eqn:Eh; [|destruct (width a =? 0) eqn:Ew]; cbn [orb].
     - apply Nat.eqb_eq in Eh. rewrite Eh. reflexivity.
     - apply Nat.eqb_eq in Ew. rewrite Ew. unfold fill_loop, forM.
-      generalize (full (@n0 T NT) (height a) 0). generalize 0 at 2.
-      induction (height a) as [|h IH]; intros lo m; [reflexivity|].
-      cbn [seq foldM bind]. apply IH.
+      cbn [seq foldM]. apply foldM_id.
     - apply Nat.eqb_neq in Eh. apply Nat.eqb_neq in Ew.
       apply fill_loop_panic; [lia|lia|].
       rewrite (get_rc_ok n0 a 0 0 Ia) by lia. reflexivity.
@@ -373,14 +377,14 @@ Section Transpose.
       rewrite (concat_rect_length _ (height a) R), ttab_length. reflexivity.
     - intros i j Hi Hj. unfold get at 1. cbn [inner width].
       rewrite (concat_rect_nth _ (height a) d R i j Hj).
-      apply ttab_nth; auto.
+      exact (ttab_nth (width a) (height a) (fun c r => get d a r c) i j Hi Hj).
   Qed.
 End Transpose.
 
 Section Laws.
   Context {T : Type} {NT : Num T} {NR : NumRing T}.
   Add Ring tring2 : nr_ring.
-  Implicit Types a b c : arr T.
+  Implicit Types a b : arr T.
   Notation "x + y" := (nadd x y).
   Notation "x * y" := (nmul x y).
   Notation g := (get (@n0 T NT)).
@@ -401,14 +405,8 @@ Section Laws.
       destruct (set_rc_spec n0 s i i n1 Is) as [s' [Es [Is' [Hh' [Hw' G']]]]]; [lia|lia|].
       exists s'. split; [exact Es|]. split; [exact Is'|]. split; [lia|]. split; [lia|].
       intros r c Hr Hc. rewrite G' by lia. rewrite G by auto.
-      destruct (r =? i) eqn:E1; destruct (c =? i) eqn:E2; destruct (r =? c) eqn:E3; cbn [andb];
-        try apply Nat.eqb_eq in E1; try apply Nat.eqb_eq in E2; try apply Nat.eqb_eq in E3;
-        try apply Nat.eqb_neq in E1; try apply Nat.eqb_neq in E2; try apply Nat.eqb_neq in E3;
-        subst; try lia; try reflexivity.
-      + replace (i <? S i) with true by (symmetry; apply Nat.ltb_lt; lia). reflexivity.
-      + destruct (c <? i) eqn:E4.
-        * apply Nat.ltb_lt in E4. replace (c <? S i) with true by (symmetry; apply Nat.ltb_lt; lia). reflexivity.
-        * apply Nat.ltb_ge in E4. replace (c <? S i) with false by (symmetry; apply Nat.ltb_ge; lia). reflexivity.
+      destruct (Nat.eqb_spec r i), (Nat.eqb_spec c i), (Nat.eqb_spec r c),
+               (Nat.ltb_spec r i), (Nat.ltb_spec r (S i)); cbn [andb]; try reflexivity; lia.
     - exists m. split; [exact E|]. split; [exact Im|]. split; [exact Hh|]. split; [exact Hw|].
       intros i j Hi Hj. rewrite G by auto.
       replace (i <? n) with true by (symmetry; apply Nat.ltb_lt; lia).
@@ -422,7 +420,7 @@ Section Laws.
     intro Ia. destruct (identity_spec (height a)) as [e [E [Ie [Hh [Hw G]]]]].
     exists e. split; [exact E|].
     destruct (c11_conforming e a Ie Ia Hw) as [c [Ec [Ic [Hch [Hcw Gc]]]]].
-    rewrite Ec. f_equal. apply (arr_ext n0); auto; [lia|lia|].
+    rewrite Ec. f_equal. apply (arr_ext n0 c a Ic Ia); [lia|lia|].
     intros r c' Hr Hc'. rewrite Gc by lia. unfold dot_entry. rewrite Hw.
     rewrite (rsum_ext _ _ (fun k => if k =? r then g a k c' else n0)).
     - rewrite rsum_delta. replace (r <? height a) with true by (symmetry; apply Nat.ltb_lt; lia). reflexivity.
@@ -436,7 +434,7 @@ Section Laws.
     intro Ia. destruct (identity_spec (width a)) as [e [E [Ie [Hh [Hw G]]]]].
     exists e. split; [exact E|].
     destruct (c11_conforming a e Ia Ie (eq_sym Hh)) as [c [Ec [Ic [Hch [Hcw Gc]]]]].
-    rewrite Ec. f_equal. apply (arr_ext n0); auto; [lia|].
+    rewrite Ec. f_equal. apply (arr_ext n0 c a Ic Ia); [lia|lia|].
     intros r c' Hr Hc'. rewrite Gc by lia. unfold dot_entry.
     rewrite (rsum_ext _ _ (fun k => if k =? c' then g a r k else n0)).
     - rewrite rsum_delta. replace (c' <? width a) with true by (symmetry; apply Nat.ltb_lt; lia). reflexivity.
@@ -456,13 +454,13 @@ Section Laws.
     assert (Hc' : width tb = height ta) by lia.
     destruct (c11_conforming tb ta Itb Ita Hc') as [p [Ep [Ip [Hph [Hpw Gp]]]]].
     exists c, ct, ta, tb. repeat split; auto.
-    rewrite Ep. f_equal. apply (arr_ext n0); auto; [lia|lia|].
+    rewrite Ep. f_equal. apply (arr_ext n0 p ct Ip Ict); [lia|lia|].
     intros i j Hi Hj. rewrite Gp by lia. rewrite Gct by lia. rewrite Gc by lia.
     unfold dot_entry. rewrite Htbw, <- Hc. apply rsum_ext. intros k Hk.
     rewrite Gtb by lia. rewrite Gta by lia. ring.
   Qed.
 
-  Lemma c11_assoc a b c : Inv a -> Inv b -> Inv c -> width a = height b -> width b = height c ->
+  Lemma c11_assoc a b (c : arr T) : Inv a -> Inv b -> Inv c -> width a = height b -> width b = height c ->
     exists ab bc l, dot a b = Ok ab /\ dot b c = Ok bc /\ dot ab c = Ok l /\ dot a bc = Ok l.
   Proof.
     intros Ia Ib Ic H1 H2.
@@ -473,7 +471,7 @@ Section Laws.
     destruct (c11_conforming ab c Iab Ic H3) as [l [El [Il [Hlh [Hlw Gl]]]]].
     destruct (c11_conforming a bc Ia Ibc H4) as [r [Er [Ir [Hrh [Hrw Gr]]]]].
     exists ab, bc, l. repeat split; auto.
-    rewrite Er. f_equal. apply (arr_ext n0); auto; [lia|lia|].
+    rewrite Er. f_equal. apply (arr_ext n0 r l Ir Il); [lia|lia|].
     intros i j Hi Hj. rewrite Gr by lia. rewrite Gl by lia.
     unfold dot_entry. rewrite Habw.
     (* sum_k a_ik (sum_m b_km c_mj) = sum_m (sum_k a_ik b_km) c_mj *)
@@ -485,7 +483,7 @@ Section Laws.
     unfold rsum. apply lsum_swap.
   Qed.
 
-  Lemma c11_laws a b c :
+  Lemma c11_laws a b (c : arr T) :
     (Inv a -> exists e, identity (height a) = Ok e /\ dot e a = Ok a) /\
     (Inv a -> exists e, identity (width a) = Ok e /\ dot a e = Ok a) /\
     (Inv a -> Inv b -> width a = height b ->
